@@ -268,6 +268,11 @@ impl Cx {
             self.res.samples.push(v);
         }
     }
+    /// Ask the parent to run the next unit in a fresh worker process (for
+    /// units that may leave parked threads or other process-wide residue).
+    pub fn request_restart(&mut self) {
+        self.res.counters.insert("__restart".into(), 1);
+    }
     pub fn note(&mut self, s: impl Into<String>) {
         if self.res.notes.len() < 20 {
             self.res.notes.push(s.into());
@@ -443,8 +448,8 @@ fn worker_main(check: &dyn Check, cfg: Cfg, shm_path: &str) -> ! {
 // ---------------------------------------------------------------- parent
 
 enum Msg {
-    Done(usize, usize, Box<UnitResult>), // slot, unit, result
-    Eof(usize),
+    Done(usize, u64, usize, Box<UnitResult>), // slot, generation, unit, result
+    Eof(usize, u64),
 }
 
 struct Slot {
@@ -487,7 +492,7 @@ impl<'a> Pool<'a> {
             .env("VERIF_SEED", self.cfg.seed.to_string())
             .stdin(Stdio::piped())
             .stdout(Stdio::piped())
-            .stderr(Stdio::null())
+            .stderr(if std::env::var("VERIF_WORKER_STDERR").is_ok() { Stdio::inherit() } else { Stdio::null() })
             .spawn()
             .map_err(|e| format!("spawn worker: {e}"))?;
         let stdin = child.stdin.take();
@@ -505,12 +510,12 @@ impl<'a> Pool<'a> {
                         if let Ok(v) = serde_json::from_str::<Value>(line.trim()) {
                             let unit = v["unit"].as_u64().unwrap_or(0) as usize;
                             let r = UnitResult::from_json(&v["result"]);
-                            let _ = tx.send(Msg::Done(idx, unit, Box::new(r)));
+                            let _ = tx.send(Msg::Done(idx, generation, unit, Box::new(r)));
                         }
                     }
                 }
             }
-            let _ = tx.send(Msg::Eof(idx));
+            let _ = tx.send(Msg::Eof(idx, generation));
         });
         self.slots[idx] = Some(Slot {
             child,
@@ -613,18 +618,28 @@ fn run_pool(
     while outstanding > 0 {
         let msg = pool.rx.recv_timeout(Duration::from_millis(100));
         match msg {
-            Ok(Msg::Done(idx, unit, r)) => {
+            Ok(Msg::Done(idx, generation, unit, r)) => {
                 let ok = pool.slots[idx]
                     .as_ref()
+                    .filter(|s| s.generation == generation)
                     .and_then(|s| s.current.as_ref())
                     .map_or(false, |c| c.0 == unit);
                 if !ok {
                     continue;
                 }
+                let mut r = r;
+                let restart = r.counters.remove("__restart").is_some();
                 agg.merge(*r);
                 *agg.counters.entry("units_done".into()).or_insert(0) += 1;
                 outstanding -= 1;
                 pool.slots[idx].as_mut().unwrap().current = None;
+                if restart {
+                    pool.retire(idx);
+                    if let Err(e) = pool.spawn(idx) {
+                        agg.machinery_errors.push(e);
+                        continue;
+                    }
+                }
                 if start.elapsed().as_secs_f64() > cap_s && !queue.is_empty() {
                     capped = true;
                     queue.clear();
@@ -635,8 +650,11 @@ fn run_pool(
                     }
                 }
             }
-            Ok(Msg::Eof(idx)) => {
+            Ok(Msg::Eof(idx, generation)) => {
                 let Some(slot) = pool.slots[idx].as_mut() else { continue };
+                if slot.generation != generation {
+                    continue; // a worker that was retired on purpose
+                }
                 let status = slot.child.wait().ok();
                 let (_seq, m_unit, m_sub) = slot.marks.read();
                 let hung = slot.killed_for_hang;
@@ -716,7 +734,6 @@ fn run_pool(
                 slot.killed_for_hang = true;
                 let _ = slot.child.kill();
             }
-            let _ = slot.generation;
         }
     }
     for i in 0..jobs {
